@@ -86,6 +86,15 @@ MUTS = {
     "M45_gen_ninja_skipped_when_exists": ("nanoemoji.py", "    if gen_ninja():\n        logging.info(f\"Generating {build_file.relative_to(build_dir())}\")", "    if gen_ninja() and not build_file.exists():\n        logging.info(f\"Generating {build_file.relative_to(build_dir())}\")", ["C09"]),
     "M46_ninja_failure_ignored": ("ninja.py", "        subprocess.run(ninja_cmd, check=True)", "        subprocess.run(ninja_cmd, check=False)", ["C09", "C17"]),
     "M43_config_not_a_dependency": ("nanoemoji.py", "        implicit=list(variables.values()),\n        variables=variables,\n    )\n    nw.newline()\n\n\ndef write_variable_font_build", "        implicit=[v for k, v in variables.items() if k != \"config_file\"],\n        variables=variables,\n    )\n    nw.newline()\n\n\ndef write_variable_font_build", ["C09", "C20"]),
+    "M77_F11_reverted_dup_inputs": ("write_font.py", "    if duplicate_names:\n", "    if False:\n", ["C17"]),
+    "M78_bad_color_falls_back_to_black": ("colors.py", "            raise ValueError(f\"invalid or unsupported color string: {s!r}\")", "            red, green, blue = 0, 0, 0", ["C17"]),
+    "M78b_unknown_spread_is_pad": ("color_glyph.py", "    if spread_method not in Extend.__members__:\n        raise ValueError(f\"Unknown spreadMethod {spread_method}\")", "    if spread_method not in Extend.__members__:\n        spread_method = \"PAD\"", ["C17"]),
+    "M78c_cbdt_too_big_unchecked": ("bitmap_tables.py", "    raise_if_too_big_for_cbdt(color_glyphs)\n", "", ["C17", "C14"]),
+    "M85_linegap_not_in_ufo": ("write_font.py", "    ufo.info.openTypeHheaLineGap = ufo.info.openTypeOS2TypoLineGap = config.linegap\n", "    ufo.info.openTypeHheaLineGap = ufo.info.openTypeOS2TypoLineGap = 0\n", ["C20"]),
+    "M88_clipbox_quantization_flag_ignored": ("config.py", "    clipbox_quantization = _pop_flag(config, \"clipbox_quantization\")\n", "    clipbox_quantization = config.pop(\"clipbox_quantization\", None)\n", ["C20", "C10"]),
+    "M88b_space_width_fixed": ("write_font.py", "    space.width = config.width\n", "    space.width = 1275\n", ["C20"]),
+    "M88c_version_minor_not_padded": ("write_font.py", "    ufo.info.versionMinor = config.version_minor\n", "    ufo.info.versionMinor = config.version_minor * 10 if config.version_minor < 100 else config.version_minor\n", ["C20"]),
+    "M88d_F13_reverted": ("nanoemoji.py", "        if dest in picosvg_builds:\n            continue\n        picosvg_builds.add(dest)\n", "        if svg_file in picosvg_builds:\n            continue\n        picosvg_builds.add(svg_file)\n", ["C20"]),
     "M68_unindexed_popleft": ("colors.py", "            result[i] = cpal_colors.pop()\n", "            result[i] = cpal_colors.popleft() if cpal_colors[0].palette_index is None else cpal_colors.pop()\n", ["C15"]),
     "M69_slots_len_only": ("colors.py", "    cpal_slots = max(len(all_colors), max(indexed_colors, default=-1) + 1)", "    cpal_slots = max(len(all_colors), len(indexed_colors))", ["C15"]),
     "M70_conflict_by_rgb_only": ("colors.py", "            if color.palette_index in indexed_colors:\n", "            if color.palette_index in indexed_colors and indexed_colors[color.palette_index][:3] != color[:3]:\n", ["C15"]),
